@@ -616,6 +616,16 @@ func (c *Ctx) filledFromSource(fn *ssa.Function, s *ssa.Store, res *ssa.Alloc, r
 		return false
 	}
 	found := false
+	// a module helper that returns a copy of its argument
+	if call, ok := s.Val.(*ssa.Call); ok && !call.Call.IsInvoke() {
+		if callee := call.Call.StaticCallee(); callee != nil && c.InModuleFn(callee) {
+			for i, a := range call.Call.Args {
+				if isSrc(a) && i < len(callee.Params) && c.helperCopies(callee, callee.Params[i]) {
+					return true
+				}
+			}
+		}
+	}
 	funcInstrs(fn, func(in ssa.Instruction) {
 		switch t := in.(type) {
 		case *ssa.Call:
@@ -698,4 +708,74 @@ func (c *Ctx) snapshotRule(rule string, ls *Locksets, lock string) *ssa.Call {
 	}
 
 	return snap
+}
+
+// helperCopies: every return of fn is either nil under `src == nil`, or a
+// fresh map/slice filled element-wise from the parameter src.
+func (c *Ctx) helperCopies(fn *ssa.Function, src *ssa.Parameter) bool {
+	ok := true
+	n := 0
+	fc := c.newFresh()
+	funcInstrs(fn, func(in ssa.Instruction) {
+		rt, isR := in.(*ssa.Return)
+		if !isR || len(rt.Results) != 1 {
+			return
+		}
+		n++
+		v := retVal(rt, 0)
+		if isNilConst(v) {
+			// only when the source is nil
+			guard := false
+			for _, cd := range CondsAt(rt.Block()) {
+				cd = unwrapNot(cd)
+				if bo, isB := cd.V.(*ssa.BinOp); isB && (bo.Op == token.EQL) == cd.True && (bo.Op == token.EQL || bo.Op == token.NEQ) {
+					if (bo.X == ssa.Value(src) && isNilConst(bo.Y)) || (bo.Y == ssa.Value(src) && isNilConst(bo.X)) {
+						guard = true
+					}
+				}
+			}
+			if !guard {
+				ok = false
+			}
+			return
+		}
+		if !fc.fresh(v, map[ssa.Value]bool{}) {
+			ok = false
+			return
+		}
+		filled := false
+		funcInstrs(fn, func(x ssa.Instruction) {
+			switch t := x.(type) {
+			case *ssa.MapUpdate:
+				if t.Map == v {
+					kOK, vOK := false, false
+					for _, pair := range [][2]interface{}{{t.Key, &kOK}, {t.Value, &vOK}} {
+						if ex, ok := pair[0].(ssa.Value).(*ssa.Extract); ok {
+							if nx, ok := ex.Tuple.(*ssa.Next); ok {
+								if rg, ok := nx.Iter.(*ssa.Range); ok && rg.X == ssa.Value(src) {
+									*(pair[1].(*bool)) = true
+								}
+							}
+						}
+					}
+					if kOK && vOK {
+						filled = true
+					}
+				}
+			case *ssa.Call:
+				if b, isB := t.Call.Value.(*ssa.Builtin); isB {
+					if b.Name() == "copy" && t.Call.Args[0] == v && t.Call.Args[1] == ssa.Value(src) {
+						filled = true
+					}
+					if b.Name() == "append" && ssa.Value(t) == v && len(t.Call.Args) == 2 && t.Call.Args[1] == ssa.Value(src) {
+						filled = true
+					}
+				}
+			}
+		})
+		if !filled {
+			ok = false
+		}
+	})
+	return ok && n > 0
 }
